@@ -785,7 +785,7 @@ def br_config(p):
     if p.get("ctor") == "binary":
         return f"BranchingModel(condition, true_branch={p['tb']}, false_branch={p['fb']}) return_branch={p['ret']} item={p['item']} extras={p['ashape']}"
     return (f"BranchingModel n={p['n']} conditions={p['conds']} default={p['default']} return_branch={p['ret']} "
-            f"item={p['item']} models={p['stage']} extras={p['ashape']}")
+            f"item={p['item']} models={p['stage']} extras={p['ashape']}" + (f" default set before branch {p['default_at']}" if p.get("default_at") is not None else ""))
 
 
 def br_names(p):
@@ -837,9 +837,13 @@ def build_br(p, conds, mk, classes):
             kw["false_branch"] = mk("md", p["stage"])
         return cls(condition=conds[0], **kw)
     m = cls()
-    for i, nm in enumerate(br_names(p)):
+    pos = p.get("default_at")          # configuration history: the default may be set before some / all add_branch calls
+    names = br_names(p)
+    for i, nm in enumerate(names):
+        if p["default"] and pos == i:
+            m.set_default_branch(mk("md", p["stage"]))
         m.add_branch(nm, condition=conds[i], model=mk(f"m{i}", p["stage"]))
-    if p["default"]:
+    if p["default"] and (pos is None or pos >= len(names)):
         m.set_default_branch(mk("md", p["stage"]))
     return m
 
@@ -1893,6 +1897,11 @@ def build_items():
     for tb, fb_, ret, item in itertools.product((True, False), repeat=4):
         for a in (0, 3):
             br.append(dict(ctor="binary", n=1, tb=tb, fb=fb_, ret=ret, item=item, stage="model", ashape=a))
+    # the default branch configured before (some of) the conditional branches
+    for n in (2, 3):
+        for pos in range(n):
+            for conds in ("independent", "threshold_inc"):
+                br.append(dict(n=n, conds=conds, default=True, default_at=pos, ret=True, item=False, stage="plain", ashape=0))
     for ch in _chunks(br, 40):
         add("br", ch)
     # ---- feedback -----------------------------------------------------------------------------------------
